@@ -49,6 +49,14 @@
 using Location = hexutil::Location;
 using Error = hexutil::Error;
 
+#ifdef HEX_VERIF
+namespace hexverif {
+// Verification hook (off by default): called at the top of every layout pass
+// with the pass number and the number of directives.
+inline void (*layoutIteration)(size_t pass, size_t numDirectives) = nullptr;
+} // End namespace hexverif.
+#endif
+
 namespace hexasm {
 
 //===---------------------------------------------------------------------===//
@@ -735,7 +743,15 @@ class CodeGen {
     int lastSize = -1;
     int byteOffset = 0;
     //int count = 0;
+#ifdef HEX_VERIF
+    size_t verifPass = 0;
+#endif
     while (lastSize != byteOffset) {
+#ifdef HEX_VERIF
+      if (hexverif::layoutIteration) {
+        hexverif::layoutIteration(++verifPass, program.size());
+      }
+#endif
       //std::cout << "Resolving labels iteration " << count++ << "\n";
       lastSize = byteOffset;
       byteOffset = 0;
